@@ -511,14 +511,16 @@ class JournalStorageReplayResult:
 
         if self._study_exists(study_id, log):
             assert len(log["user_attr"]) == 1
-            self._studies[study_id].user_attrs.update(log["user_attr"])
+            study = self._studies[study_id]
+            study.user_attrs = {**study.user_attrs, **log["user_attr"]}
 
     def _apply_set_study_system_attr(self, log: dict[str, Any]) -> None:
         study_id = log["study_id"]
 
         if self._study_exists(study_id, log):
             assert len(log["system_attr"]) == 1
-            self._studies[study_id].system_attrs.update(log["system_attr"])
+            study = self._studies[study_id]
+            study.system_attrs = {**study.system_attrs, **log["system_attr"]}
 
     def _apply_create_trial(self, log: dict[str, Any]) -> None:
         study_id = log["study_id"]
